@@ -12,7 +12,6 @@ import (
 	"strings"
 	"sync"
 	"time"
-	"unsafe"
 
 	"github.com/ClickHouse/ch-go"
 	"github.com/ClickHouse/ch-go/proto"
@@ -25,8 +24,8 @@ import (
 	"github.com/metrico/qryn/writer/model"
 	apirouterv1 "github.com/metrico/qryn/writer/router"
 	"github.com/metrico/qryn/writer/service"
+	"github.com/metrico/qryn/writer/plugin"
 	"github.com/metrico/qryn/writer/service/impl"
-	"github.com/metrico/qryn/writer/service/registry"
 	"github.com/metrico/qryn/writer/utils/logger"
 	"github.com/metrico/qryn/writer/utils/numbercache"
 	"github.com/metrico/qryn/writer/utils/unmarshal"
@@ -181,47 +180,39 @@ func (fakeClient) QueryRow(ctx context.Context, query string, args ...interface{
 }
 func (fakeClient) Close() error { return nil }
 
-// ------------------------------------------------------------------ the writer under test, wired as plugin/qryn_writer_db.go does
+// ------------------------------------------------------------------ the writer under test, built by the production wiring
+// (writer/plugin CreateStaticServiceRegistry: insert services, OnBeforeInsert links, and GoCache with
+// ITS key serializer), then installed as writer/main_dev.go does. Only ClickHouse is replaced.
 
-var node = &model.DataDatabasesMap{ClokiBaseDataBase: cfgbase.ClokiBaseDataBase{Node: "n1", Name: "qryn", WriteTimeout: 5}}
-var curCache *numbercache.Cache[uint64]
+var node = model.DataDatabasesMap{ClokiBaseDataBase: cfgbase.ClokiBaseDataBase{Node: "n1", Name: "qryn", WriteTimeout: 5}}
 
-func resetCache() {
-	if curCache != nil {
-		curCache.Stop()
+func prodCache() *numbercache.Cache[uint64] {
+	c, ok := plugin.GoCache.(*numbercache.Cache[uint64])
+	if !ok {
+		panic(fmt.Sprintf("plugin.GoCache is a %T", plugin.GoCache))
 	}
-	// what the 30-minute ticker does (sets.Reset()) is not reachable from outside the package:
-	// an empty cache of the same construction is installed instead
-	curCache = numbercache.NewCache[uint64](time.Minute*30, func(val uint64) []byte {
-		return unsafe.Slice((*byte)(unsafe.Pointer(&val)), 8)
-	}, map[string]*model.DataDatabasesMap{"n1": node})
-	controllerv1.FPCache = curCache
+	return c
 }
+
+// what the 30-minute ticker does, now (hook VerifC04Reset)
+func resetCache() { prodCache().VerifC04Reset() }
 
 func setup() *mux.Router {
 	logger.Logger.SetOutput(io.Discard)
 	config.Cloki.Setting.SYSTEM_SETTINGS.RetryAttempts = 1
 	config.Cloki.Setting.SYSTEM_SETTINGS.RetryTimeoutS = 0
+	config.Cloki.Setting.SYSTEM_SETTINGS.DBTimer = 0.001
+	config.Cloki.Setting.SYSTEM_SETTINGS.ChannelsSample = 1
+	config.Cloki.Setting.SYSTEM_SETTINGS.ChannelsTimeSeries = 1
 	service.CreateColPools(8)
 	factory := ch_wrapper.IChClientFactory(func() (ch_wrapper.IChClient, error) { return fakeClient{}, nil })
-	mk := func(f func(model.InsertServiceOpts) service.IInsertServiceV2, before func()) service.IInsertServiceV2 {
-		s := f(model.InsertServiceOpts{Session: factory, Node: node, Interval: time.Millisecond, ParallelNum: 1, OnBeforeInsert: before})
-		s.Init()
-		go s.Run()
-		return s
-	}
-	one := func(s service.IInsertServiceV2) map[string]service.IInsertServiceV2 {
-		return map[string]service.IInsertServiceV2{"n1": s}
-	}
-	ts := mk(impl.NewTimeSeriesInsertService, nil)
-	flushTs := func() { ts.PlanFlush() }
-	spl := mk(impl.NewSamplesInsertService, flushTs)
-	mtr := mk(impl.NewMetricsInsertService, flushTs)
-	tsp := mk(impl.NewTempoSamplesInsertService, nil)
-	ttg := mk(impl.NewTempoTagsInsertService, nil)
-	prf := mk(impl.NewProfileSamplesInsertService, nil)
-	controllerv1.Registry = registry.NewStaticServiceRegistry(one(ts), one(spl), one(mtr), one(tsp), one(ttg), one(prf))
-	resetCache()
+	p := &plugin.QrynWriterPlugin{ServicesObject: plugin.ServicesObject{
+		DatabaseNodeMap: []model.DataDatabasesMap{node},
+		Dbv3Map:         []ch_wrapper.IChClientFactory{factory},
+	}}
+	p.CreateStaticServiceRegistry(*config.Cloki.Setting, &impl.DevInsertServiceFactory{})
+	controllerv1.Registry = plugin.ServiceRegistry
+	controllerv1.FPCache = plugin.GoCache
 	r := mux.NewRouter()
 	cfg := controllerv1.NewMiddlewareConfig(controllerv1.WithExtraMiddlewareDefault...)
 	apirouterv1.RouteInsertDataApis(r, cfg)
@@ -267,8 +258,9 @@ type Entry struct {
 	T  int   `json:"t"`  // 1 log, 2 metric, 0 both
 }
 type Stream struct {
-	Ls      int     `json:"ls"` // index into the label-set pool
-	Fp      string  `json:"fp"` // fingerprintLabels of that set (hook)
+	Ls      int         `json:"ls"`               // index into the label-set pool (when Labels is empty)
+	Labels  [][2]string `json:"labels,omitempty"` // explicit label set
+	Fp      string      `json:"fp"`               // fingerprintLabels of that set (hook)
 	Entries []Entry `json:"entries"`
 }
 type Step struct {
@@ -297,10 +289,22 @@ var pool = [][][]string{
 	{{"app", "api"}, {"env", "dev"}},
 }
 
-func poolFp(i int) string {
-	san := unmarshal.VerifC04SanitizeLabels(copyLabels(pool[i]))
-	return strconv.FormatUint(unmarshal.VerifC04FingerprintLabels(san), 10)
+func labelsOf(s Stream) [][]string {
+	if len(s.Labels) == 0 {
+		return pool[s.Ls]
+	}
+	out := make([][]string, len(s.Labels))
+	for i, kv := range s.Labels {
+		out[i] = []string{kv[0], kv[1]}
+	}
+	return out
 }
+
+func fpOf(ls [][]string) uint64 {
+	return unmarshal.VerifC04FingerprintLabels(unmarshal.VerifC04SanitizeLabels(copyLabels(ls)))
+}
+
+func poolFp(i int) string { return strconv.FormatUint(fpOf(pool[i]), 10) }
 
 const day0 = int64(19732) // 2024-01-10
 
@@ -376,7 +380,7 @@ func bodyOf(st Step) string {
 	var ss []string
 	for _, s := range st.Streams {
 		var m []string
-		for _, kv := range pool[s.Ls] {
+		for _, kv := range labelsOf(s) {
 			m = append(m, jsonStr(kv[0])+":"+jsonStr(kv[1]))
 		}
 		var es []string
@@ -408,7 +412,7 @@ func runHistCase(r *mux.Router, c *HCase) {
 				continue
 			}
 			for j := range st.Streams {
-				st.Streams[j].Fp = poolFp(st.Streams[j].Ls)
+				st.Streams[j].Fp = strconv.FormatUint(fpOf(labelsOf(st.Streams[j])), 10)
 			}
 			code, calls := push(r, bodyOf(*st), st.TsOK, st.SplOK)
 			c.Obs = append(c.Obs, StepObs{Status: code, Calls: calls})
@@ -434,6 +438,14 @@ func runHist(f *hx.Flags, out *hx.Out) {
 		c := genHist(rnd, i)
 		runHistCase(r, &c)
 		out.Put(c)
+	}
+	// histories built from announcement keys that collide on part of their 64 bits
+	id := f.N
+	for _, col := range findCollisions(rnd, 300000) {
+		for _, c := range collisionHists(col, &id) {
+			runHistCase(r, &c)
+			out.Put(c)
+		}
 	}
 }
 
